@@ -348,6 +348,7 @@ func c08Run(w *W, idx int) {
 	c08NilConfig(w, r)
 	c08OtherConfigs(w, r)
 	c08OtherNotation(w, r)
+	c08OptionReuse(w, r, cases[0])
 	// The caller edits its Config between two compilations (same object): the second compilation is a function of the
 	// new contents, i.e. it gives what an equal Config that was never compiled with gives.
 	for i, c := range cases {
@@ -803,5 +804,48 @@ func c08OtherNotation(w *W, r *rand.Rand) {
 		if direct != after {
 			w.Fail("compile-depends-on-other-notation", "Compile of %q (infix=%v) gives %q when the text is new to the process, and %q after the same text was compiled under a Config with the other notation", fmt.Sprintf(shape, "NAME"), !infixFirst, firstN(direct, 300), firstN(after, 300))
 		}
+	}
+}
+
+// c08OptionReuse: an ExtendConf option is kept and applied again after its source Config was edited (a name registered, a
+// constant added, a stateless name appended, a map field replaced as a whole). The property does not say whether the
+// option reads its source when it is built or when it is applied, so both are accepted - but nothing in between: the
+// derived Config equals either what a fresh ExtendConf of the edited source gives, or what the option gave before the
+// edit. A mixture (some edits visible, others not) is a Config that no state of the source ever described.
+func c08OptionReuse(w *W, r *rand.Rand, c *c08Case) {
+	if c.nilMaps {
+		return
+	}
+	base := c.mk()
+	opt := eval.ExtendConf(base)
+	var first, second, fresh string
+	o := guard(func() (eval.Value, error) { first = configSnapshot(eval.NewConfig(opt)); return nil, nil })
+	if o.Panic != nil {
+		w.Fail("extendconf-panic", "NewConfig(ExtendConf(base)) panicked: %v", o.Panic)
+		return
+	}
+	base.ConstantMap["LATE_CONST"] = int64(1)
+	eval.GetOrRegisterKey(base, "late_var")
+	base.StatelessOperators = append(base.StatelessOperators, "late_stateless")
+	switch r.Intn(3) {
+	case 0:
+		base.CostsMap = map[string]float64{"late_cost": 2}
+	case 1:
+		nm := map[string]eval.Value{"ONLY_CONST": int64(2)}
+		base.ConstantMap = nm
+	}
+	o = guard(func() (eval.Value, error) {
+		second = configSnapshot(eval.NewConfig(opt))
+		fresh = configSnapshot(eval.NewConfig(eval.ExtendConf(base)))
+		return nil, nil
+	})
+	w.Evals += 3
+	w.Inc("extendconf_option_reuse_probes")
+	if o.Panic != nil {
+		w.Fail("extendconf-panic", "NewConfig(ExtendConf(base)) panicked after base was edited: %v", o.Panic)
+		return
+	}
+	if second != fresh && second != first {
+		w.Fail("extendconf-option-reuse-inconsistent", "an ExtendConf option applied again after its source was edited gives a Config that is neither the edited source (what a fresh ExtendConf gives) nor the source as it was when the option was built\nreused option:\n%s\nfresh option:\n%s\nbefore the edit:\n%s", second, fresh, first)
 	}
 }
